@@ -10,6 +10,7 @@ OneFails(chn, o) ==
   LET v == Val(o.v)
       want == Verdict(chn, v)
   IN (IF (want = "accept" /\ ~o.valid) \/ (want = "reject" /\ o.valid) THEN {"VerdictEqual"} ELSE {})
+     \cup (IF o.same_rev THEN {} ELSE {"OrderIndependent"})      \* a fresh process that met the values in the opposite order gave another verdict
      \cup (IF Conflict(chn) = "yes" /\ ~o.valid /\ {o.codes[j] : j \in DOMAIN o.codes} # {"E999"} THEN {"ConflictFirst"} ELSE {})
      \cup (IF Len(chn) = 1 /\ want = "reject" /\ ~o.valid /\ Conflict(chn) = "no"
               /\ ~({o.codes[j] : j \in DOMAIN o.codes} # {} /\ {o.codes[j] : j \in DOMAIN o.codes} \subseteq CodeOf(Cons(chn[1]), v))
